@@ -94,7 +94,7 @@ func (c *fctx) rangeStmt() []*S {
 	}
 	opts := []opt{}
 	if cfg.Ranges {
-		opts = append(opts, opt{"slice", 5}, opt{"array", 3}, opt{"string", 4}, opt{"map", 3}, opt{"chan", 2}, opt{"int", 4}, opt{"small", 1}, opt{"mapnan", 1}, opt{"bound", 1}, opt{"assignidx", 1}, opt{"intcapture", 1}, opt{"nativeswitch", 2})
+		opts = append(opts, opt{"slice", 5}, opt{"array", 3}, opt{"string", 4}, opt{"map", 3}, opt{"chan", 2}, opt{"int", 4}, opt{"small", 1}, opt{"mapnan", 1}, opt{"bytestr", 1}, opt{"bound", 1}, opt{"assignidx", 1}, opt{"intcapture", 1}, opt{"nativeswitch", 2})
 	}
 	if cfg.Consume {
 		opts = append(opts, opt{"iter", 6}, opt{"pull", 3})
@@ -216,6 +216,7 @@ func (c *fctx) rangeStmt() []*S {
 	keyInt, valInt := true, true
 	coll := ""
 	var typedAssignUse *S
+	byteStrCall := ""
 	switch kind {
 	case "slice":
 		if vs := c.sc.visible(vSlice); len(vs) > 0 && r.Chance(1, 2) {
@@ -312,6 +313,21 @@ func (c *fctx) rangeStmt() []*S {
 			loop.Body = []*S{{K: SAssign, Name: acc[r.Intn(len(acc))], Op: "+=", E: bin(v("mk"), "+", bin(v("mv"), "*", lit(3)))}}
 			return append(pre, loop)
 		}
+	case "bytestr":
+		// range over string(bs) of a byte slice that is overwritten (through copy, which is no
+		// assignment to it) while the loop runs: the conversion is a snapshot
+		coll = ""
+		bs := c.fresh([]string{"bs", "bs2"})
+		pre = append(pre, &S{K: SRaw, ID: c.g.id(), Src: fmt.Sprintf("%s := []byte(\"h\\xc3\\xa9llo\")", bs)})
+		c.sc.declare(bs, vAny)
+		loop.E = &X{K: XRaw, S: "string(" + bs + ")"}
+		valInt = false
+		pre = append(pre, &S{K: SRaw, ID: c.g.id(), Src: fmt.Sprintf("over%s := func() { copy(%s, \"WORLD!\") }", bs, bs)})
+		if form == 3 || form == 4 {
+			form = 0
+		}
+		byteStrCall = "over" + bs + "()"
+		c.g.mark("range_over_string_conversion_of_a_byte_slice_overwritten_in_the_body")
 	case "mapnan":
 		keyInt = false
 		loop.E = &X{K: XCall, Name: "mkf", Args: []*X{lit(r.Intn(2))}}
@@ -507,6 +523,9 @@ func (c *fctx) rangeStmt() []*S {
 	}
 	if assignIn != nil {
 		body = append([]*S{assignIn}, body...)
+	}
+	if byteStrCall != "" {
+		body = append([]*S{{K: SRaw, ID: c.g.id(), Src: byteStrCall}}, body...)
 	}
 	// ':=' form: every iteration has its own variables. Closures that capture them escape the
 	// iteration (collected in a slice) and are called after the loop has finished; one of them
